@@ -2,7 +2,7 @@
    order.  Only statements here; proofs live in Proofs/Callbacks*.v.
    Model: Model/Callbacks.v (the Go code after the planned repairs).
    Specification: Spec/CbTrace.v (written from the property statement). *)
-From Tab Require Import Model.Callbacks Spec.CbTrace Proofs.CallbacksBase Proofs.CallbacksSim Proofs.CallbacksProofs Proofs.CallbacksCount Proofs.CallbacksOnce.
+From Tab Require Import Model.Callbacks Spec.CbTrace Proofs.CallbacksBase Proofs.CallbacksSim Proofs.CallbacksProofs Proofs.CallbacksCount Proofs.CallbacksOnce Proofs.CallbacksShared.
 
 (* Registering is refused with an error exactly for the unsupported owner/target
    combinations - whatever the state, the owner instance, the time, the callback. *)
@@ -88,6 +88,51 @@ Theorem c13_live : forall h k,
     forall cb x, In (cb, x) (oc_add oc ++ oc_render oc) -> get_prop (oc_props oc) x cb = true.
 Proof. exact live. Qed.
 Print Assumptions c13_live.
+
+(* A row that another table holds too (rows are shared by pointer; the other
+   table's AddRow of row r is the operation OOtherAddRow r of this table's
+   history).  It is no event of this table: with it or without it the history
+   is inside the quantifier, the model computes the same outcome - the same
+   refusals, add-time invocations, render log of every pass, properties - and
+   the specification demands the same.  So all of the theorems above speak
+   about a table some of whose rows other tables hold as well: every pass of
+   THIS table runs THIS table's callbacks on the row and its cells, exactly
+   once each, in the documented order, wherever else the row has been added
+   before, between or after. *)
+Theorem c13_other_table : forall h1 r h2 k,
+  wf_hist (h1 ++ OOtherAddRow r :: h2) = true ->
+  wf_hist (h1 ++ h2) = true
+  /\ run (h1 ++ OOtherAddRow r :: h2) k = run (h1 ++ h2) k
+  /\ spec_regerr (h1 ++ OOtherAddRow r :: h2) = spec_regerr (h1 ++ h2)
+  /\ spec_add (h1 ++ OOtherAddRow r :: h2) = spec_add (h1 ++ h2)
+  /\ spec_add_views (h1 ++ OOtherAddRow r :: h2) = spec_add_views (h1 ++ h2)
+  /\ spec_render (h1 ++ OOtherAddRow r :: h2) k = spec_render (h1 ++ h2) k
+  /\ spec_render_views (h1 ++ OOtherAddRow r :: h2) k = spec_render_views (h1 ++ h2) k.
+Proof. exact other_table_no_event. Qed.
+Print Assumptions c13_other_table.
+
+(* ... and it may happen at any point of a history at which the row exists
+   and has cells (before this table adds the row, afterwards, or without this
+   table ever adding it). *)
+Theorem c13_other_table_any_time : forall h1 r h2,
+  wf_hist (h1 ++ h2) = true ->
+  op_wf (final_shape shape0 h1) (OOtherAddRow r) = true ->
+  wf_hist (h1 ++ OOtherAddRow r :: h2) = true.
+Proof. exact other_table_any_time. Qed.
+Print Assumptions c13_other_table_any_time.
+
+(* non-vacuity of the two: a row built detached is taken by another table
+   first and by this one afterwards, a second one the other way round; the
+   table's cell callbacks fire on both rows' cells in every pass *)
+Example c13_example_shared :
+  let h := [ORegister OTable TPre GCell 1; ORegister OTable TAdd GRow 2;
+            ONewRow; ORowAdd 0; OOtherAddRow 0; OAddRow 0;
+            OAddRowItems 2; OOtherAddRow 1; ORegister OTable TPost GCell 3] in
+  wf_hist h = true /\ shared_domain h = true
+  /\ exists oc, run h 2 = Ok oc
+     /\ oc_add oc = [(2, XRow 0); (2, XRow 1)]
+     /\ oc_render oc = repeat_app [(1, XCell 0 1); (3, XCell 0 1); (1, XCell 1 1); (3, XCell 1 1); (1, XCell 1 2); (3, XCell 1 2)] 2.
+Proof. cbv zeta. split; [vm_compute; reflexivity|]. split; [vm_compute; reflexivity|]. eexists. split; [vm_compute; reflexivity|]. vm_compute. auto. Qed.
 
 (* non-vacuity: a history with a header, a row built detached, a row extended
    after it joined the table, a separator, registrations before and after the
